@@ -185,9 +185,38 @@ type writerRule struct {
 	Writers map[string]bool   // callee names (method or function name)
 	Recv    map[string]bool   // accepted receiver type names (empty: any)
 	Allow   map[string]string // enclosing function (pkg-relative key) -> assumption
+	View    string            // when set, the contract of that view (key@view) is accepted as well
 }
 
 var writerRules = map[string][]writerRule{
+	"C17": {
+		{
+			Prop: "C17", What: "the raw store of x/storage", View: "store",
+			Pkgs:    []string{"x/storage/keeper", "x/storage"},
+			Writers: map[string]bool{"Set": true, "Delete": true},
+			Recv:    map[string]bool{"Store": true, "KVStore": true},
+			Allow:   map[string]string{},
+		},
+		{
+			Prop: "C17", What: "single file-index entries", View: "store",
+			Pkgs:    []string{"x/storage/keeper", "x/storage"},
+			Writers: map[string]bool{"setFilePrimary": true, "setFileSecondary": true, "removeFilePrimary": true, "removeFileSecondary": true},
+			Recv:    map[string]bool{"Keeper": true, "msgServer": true},
+			Allow:   map[string]string{},
+		},
+		{
+			Prop: "C17", What: "stored files, prover lists and proof records",
+			Pkgs:    []string{"x/storage/keeper", "x/storage/types", "x/storage"},
+			Writers: map[string]bool{"SetFile": true, "RemoveFile": true, "SetProof": true, "RemoveProof": true, "RemoveProofWithBuiltKey": true, "AddProver": true, "RemoveProver": true, "RemoveProverWithKey": true, "Save": true},
+			Recv:    map[string]bool{"Keeper": true, "msgServer": true, "ProofLoader": true, "UnifiedFile": true, "FileProof": true},
+			Allow: map[string]string{
+				"x/storage.InitGenesis":             "genesis import (C19); not a transaction path",
+				"x/storage/types.(*FileProof).Save": "wrapper of SetProof without callers in the module",
+				"x/storage/types.(*UnifiedFile).Save": "wrapper of SetFile; its only caller RemoveProverWithKey is under contract (it is inlined there)",
+				"x/storage/types.(*UnifiedFile).RemoveProver": "wrapper of RemoveProverWithKey with the key built by MakeProofKey; inlined at its call sites (DoReport)",
+			},
+		},
+	},
 	"C14": {{
 		Prop: "C14", What: "attestation and report forms",
 		Pkgs:    []string{"x/storage/keeper", "x/storage"},
@@ -296,7 +325,15 @@ func (w *Workspace) structuralWriters(prop string) *FuncResult {
 					continue
 				}
 				ct := w.contracts[modPath+"/"+rel+"::"+relName(top)]
+				if rule.View != "" {
+					if vc := w.contracts[modPath+"/"+rel+"::"+relName(top)+"@"+rule.View]; vc != nil && !vc.Trusted && contains(vc.Props, prop) {
+						ct = vc
+					}
+				}
 				label := "writer_under_contract:" + mangle(relName(top))
+				if len(rules) > 1 {
+					label = "writer_under_contract:" + mangle(rule.What) + ":" + mangle(relName(top))
+				}
 				switch {
 				case ct != nil && !ct.Trusted && contains(ct.Props, prop):
 					res.Obls = append(res.Obls, structural(topKey, label, []string{prop}, true, fmt.Sprintf("calls %s; the function is under a %s contract", strings.Join(hits, ", "), prop)))
